@@ -16,6 +16,7 @@ FAMILIES = {
     "validation": "harness.check_validation",
     "registry": "harness.check_registry",
     "save": "harness.check_save",
+    "formats": "harness.check_formats",
 }
 # property -> families whose judges print verdicts for it
 PROPS = {
@@ -28,6 +29,7 @@ PROPS = {
     "C08": ["validation"],
     "C19": ["registry"],
     "C07": ["save"],
+    "C01": ["formats"], "C02": ["formats"],
 }
 EXPLAIN = {}
 
